@@ -317,9 +317,12 @@ impl Session {
     }
 
     /// frames the server has sent that the client has not read yet (connect itself consumes 6)
+    /// something the server has sent is still unread: bytes on the raw transport, or plaintext the TLS layer of the
+    /// client has already decrypted (how many PDUs one `read` takes is the library's business: no counting of calls)
     pub fn outstanding(&self) -> usize {
-        let sent = self.world.server.borrow().frames_sent;
-        sent.saturating_sub(6 + self.reads_done)
+        let raw = self.world.wire.borrow().s2c.len();
+        let buffered = self.client.as_ref().map(|c| c.has_buffered_data()).unwrap_or(false);
+        raw + buffered as usize
     }
 
     /// read every outstanding frame; Ok(Err) on the first failing read
@@ -545,6 +548,14 @@ pub fn establish(env: &mut crate::scen::Env, prefix: &str, auto_activate: bool) 
     }
     let mut s = Session::connect(world, &cfg)?;
     if let Err(k) = &s.connect_result {
+        // In the worlds where the scenario itself plays the activation letter by letter the server sends no demand-active
+        // on its own. A client that does the activation inside connect() then waits there for ever: connecting against
+        // a server that does send one is C03's business, and this scenario has nothing to say about such a client.
+        let (phase, info_seen) = { let srv = s.world.server.borrow(); (srv.phase, srv.info_seen) };
+        if !auto_activate && k.contains("TimedOut") && phase == Phase::Activation && info_seen {
+            ctxrc.borrow_mut().probe("client_activates_inside_connect");
+            return Err(Outcome::Pass);
+        }
         return Err(viol(&format!("{}/session-not-established", prefix), "connect", format!("connect failed: {}", k)));
     }
     if auto_activate {
